@@ -784,6 +784,7 @@ func (r *Raft) submitReadOnlyOperation(
 		Bytes:         operationBytes,
 		OperationType: readOnlyType,
 		readIndex:     r.commitIndex,
+		round:         r.operationManager.rounds,
 	}
 	r.operationManager.pendingReadOnly[operation] = operationFuture.responseCh
 
@@ -982,8 +983,13 @@ func (r *Raft) sendAppendEntriesToPeers() {
 		if r.log.LastIndex() > r.commitIndex {
 			r.commitCond.Broadcast()
 		}
-		r.tryApplyReadOnlyOperations()
+		r.tryApplyReadOnlyOperations(r.operationManager.rounds + 1)
 	}
+
+	// The replies to this round only verify leadership for the read-only operations
+	// that have been submitted by now.
+	r.operationManager.rounds++
+	round := r.operationManager.rounds
 
 	// This node only counts towards the quorum if it is a voting member itself.
 	numResponses := 0
@@ -992,14 +998,14 @@ func (r *Raft) sendAppendEntriesToPeers() {
 	}
 	for id, address := range r.configuration.Members {
 		if id != r.id {
-			go r.sendAppendEntries(id, address, &numResponses)
+			go r.sendAppendEntries(id, address, &numResponses, round)
 		}
 	}
 }
 
 // sendAppendEntries sends an AppendEntries RPC to a node with the provided ID
-// and address.
-func (r *Raft) sendAppendEntries(id string, address string, numResponses *int) {
+// and address as a part of the round of heartbeats with the provided number.
+func (r *Raft) sendAppendEntries(id string, address string, numResponses *int, round uint64) {
 	r.mu.Lock()
 	defer r.mu.Unlock()
 
@@ -1069,7 +1075,7 @@ func (r *Raft) sendAppendEntries(id string, address string, numResponses *int) {
 	if numResponses != nil && r.isVoter(id) {
 		*numResponses += 1
 		if r.hasQuorum(*numResponses) {
-			r.tryApplyReadOnlyOperations()
+			r.tryApplyReadOnlyOperations(round)
 			numResponses = nil
 		}
 	}
@@ -1985,10 +1991,11 @@ func (r *Raft) cancelConfigurationChange() {
 	r.configurationResponseCh = nil
 }
 
-// tryApplyReadOnlyOperations renews the lease and notifies the read-only
-// loop that it may be possible to apply some read-only operations.
-func (r *Raft) tryApplyReadOnlyOperations() {
-	r.operationManager.markAsVerified()
+// tryApplyReadOnlyOperations marks the read-only operations that were submitted before the
+// round of heartbeats with the provided number was started as verified, renews the lease and
+// notifies the read-only loop that it may be possible to apply some read-only operations.
+func (r *Raft) tryApplyReadOnlyOperations(round uint64) {
+	r.operationManager.markAsVerifiedBy(round)
 	r.operationManager.leaderLease.renew()
 	r.operationManager.shouldVerifyQuorum = true
 	r.readOnlyCond.Broadcast()
